@@ -1,6 +1,10 @@
 package ast
 
-import "github.com/ajitpratap0/GoSQLX/pkg/models"
+import (
+	"sync"
+
+	"github.com/ajitpratap0/GoSQLX/pkg/models"
+)
 
 // Spanned represents an AST node that has source location information
 type Spanned interface {
@@ -59,17 +63,28 @@ func (a *AST) Span() models.Span {
 	return UnionSpans(spans)
 }
 
-// spanInfo stores source location information for AST nodes
-var spanInfo = make(map[interface{}]models.Span)
+// spanInfo stores source location information for AST nodes. It is shared by
+// all goroutines, so access goes through spanMu.
+var (
+	spanMu   sync.RWMutex
+	spanInfo = make(map[interface{}]models.Span)
+)
 
-// SetSpan sets the source location span for an AST node
+// SetSpan sets the source location span for an AST node.
+// It is safe for concurrent use.
 func SetSpan(node interface{}, span models.Span) {
+	spanMu.Lock()
 	spanInfo[node] = span
+	spanMu.Unlock()
 }
 
-// GetSpan gets the source location span for an AST node
+// GetSpan gets the source location span for an AST node.
+// It is safe for concurrent use.
 func GetSpan(node interface{}) models.Span {
-	if span, ok := spanInfo[node]; ok {
+	spanMu.RLock()
+	span, ok := spanInfo[node]
+	spanMu.RUnlock()
+	if ok {
 		return span
 	}
 	return models.EmptySpan()
